@@ -894,7 +894,15 @@ def rule_sibling(F, ev, R, config, rule="R-SIBLING"):
             R.add(rule, config, bp.key, "set_params-conditions-equal", okc,
                   "" if okc else "the parallel set_params stores a present cache under different conditions than the sequential one: only-seq %s / only-par %s" % (
                       [x[:160] for x in sorted(cs - cp)][:2], [x[:160] for x in sorted(cp - cs)][:2]), bp.j["span"])
-            # same control skeleton: number of cache writes by kind
+            # … and the cache is left as it was on the same paths (none, on the pinned tree): with equal conditions for a
+            # present cache, "every path to return replaces the cache" in both flavours makes the absent cases coincide too
+            def rewrites(bb):
+                wb = set(x[0] for x in rules_err.cache_writes(F, ev, bb, pr))
+                return bb.must_pass(0, bb.exits(), wb)
+            rs_, rp_ = rewrites(bs), rewrites(bp)
+            R.add(rule, config, bp.key, "set_params-untouched-paths-equal", rs_ == rp_,
+                  "" if rs_ == rp_ else "one flavour of set_params replaces the cache on every path to return, the other can return with the "
+                  "previous cache still in place (sequential: %s, parallel: %s)" % ("every path" if rs_ else "not every path", "every path" if rp_ else "not every path"), bp.j["span"])
             continue
         ev.fresh_ctx()
         vs = canon(ev.ret_val(Env(bs)))
@@ -918,7 +926,7 @@ def rule_sibling(F, ev, R, config, rule="R-SIBLING"):
                           effects_signature(effs_s, cns, vs_, True), effects_signature(effs_p, cnp, vp_, True)), bp.j["span"])
             except AnchorMissing as ex:
                 R.bad(rule, config, bp.key, "column-closure-effects-equal", "%s (undetermined)" % ex, bp.j["span"])
-    R.floor(rule, config, 6, "4 methods + conditions + column closure")
+    R.floor(rule, config, 7, "4 methods + conditions + column closure")
 
 
 def effects_signature(effs, cn, val, pretty=False):
